@@ -7,7 +7,34 @@ fn main() {
     "C12" => mc::enum_checkers::run(&args),
     "C13" => mc::enum_files::run(&args),
     "C14" => mc::enum_map::run(&args),
+    "smoke" => smoke(),
+    "C01" | "C02" | "C03" | "C04" | "C05" | "C06" | "C07" | "C08" | "C09" | "C16" | "C17" | "C18" | "C19" | "C20" => mc::checks::run(&args),
     other => { eprintln!("unknown property {}", other); 2 }
   };
   std::process::exit(code);
+}
+
+fn smoke() -> i32 {
+  use mc::prog::*; use mc::runner::*;
+  let st = |op| Stmt { guard: None, op };
+  let p = Prog { n_res: 2, bodies: vec![
+    vec![st(Op::Req(1, OC::Equals)), st(Op::Read(0, RC::Exact))],
+    vec![st(Op::Read(1, RC::Exact)), st(Op::Write(0, Src::Acc, RC::Exact))],
+  ]};
+  let path = vec![
+    PEvent::plain(Event::Set(1, Some(1))), PEvent::plain(Event::TopDown(vec![0])),
+    PEvent::plain(Event::Set(1, Some(0))), PEvent::plain(Event::BottomUp{pre: vec![], reported: vec![1], then: vec![0]}),
+    PEvent::plain(Event::TopDown(vec![0, 1])),
+  ];
+  let t0 = std::time::Instant::now();
+  let steps = run_history(&p, &path);
+  for s in &steps {
+    println!("== {} -> {:?} cells {:?} errs {:?}", s.pev.to_string(), s.outcome, &s.post_cells[..2], s.dep_errors);
+    for e in &s.log { println!("   {:?}", e); }
+    println!("   dump {}", s.dump.to_json());
+  }
+  let n = 20000;
+  for _ in 0..n { let _ = run_history(&p, &path); }
+  println!("{:.1} us per history", t0.elapsed().as_secs_f64() * 1e6 / n as f64);
+  0
 }
